@@ -22,7 +22,7 @@ COMPONENTS = {"real": ["pyjelly generic serializer (stream_frames, flat_/grouped
               "stub": ["byte channel (simkit.pipe)", "input iterator / output sink"]}
 ASSUMPTIONS = ["inputs and configurations are sampled, not enumerated",
                "first raw read delivers >=3 bytes (shorter first reads are C09's subject)"]
-PROBES = ["empty_sequences", "deep_nesting_runs", "nesting_over_97", "evictions", "zero_prefix_tables", "zero_datatype_tables", "quoted_depth2", "nondelimited",
+PROBES = ["str_subclass_spellings", "empty_sequences", "deep_nesting_runs", "nesting_over_97", "evictions", "zero_prefix_tables", "zero_datatype_tables", "quoted_depth2", "nondelimited",
           "physical_GRAPHS", "physical_QUADS", "interleaved_runs"]
 SHRINK_LISTS = ["ops"]
 
@@ -70,6 +70,10 @@ def fit_tables(rng, stmts, nss, sizes, physical):
 
 def generate(rng, run, tier):
     plan = gen_plan(rng, run, tier)
+    if rng.random() < 0.05:
+        # every second occurrence of an IRI / label / datatype / language tag arrives as a str subclass with its
+        # own equality, hash and __str__ (rdflib.URIRef, a (str, Enum) vocabulary member): same text, same term
+        plan["cfg"]["odd_str"] = True
     if rng.random() < 0.004 and plan["cfg"]["entry"] in ("frames_gen", "flat_file", "flat_frames"):
         plan["ops"] = []        # the empty sequence is a finite statement sequence too (C01 only)
     elif rng.random() < 0.006:
@@ -236,6 +240,8 @@ def execute(plan, sim):
     expected = [T.norm_stmt(st) for st in stmts]
     data, items, serr, perr = roundtrip(plan, sim)
     probes(sim, plan, data)
+    if cfg.get("odd_str"):
+        sim.count("str_subclass_spellings")
     if any(T.term_depth(t) >= 2 for st in stmts for t in st):
         sim.count("quoted_depth2")
     deep = plan.get("deep_nesting", 0)
